@@ -1906,3 +1906,38 @@ def r2_13(rep):
                   "the value returned for a function pointee comes from `to_rust_ty_or_opaque`: an unspellable function type yields a blob "
                   "of the function type's layout where a pointer is needed", b.loc(node))
     rep.need(n >= 1, "the exit of the pointer arm for function pointees")
+
+
+@RULES.rule("R2.14", "the layout by which a scalar is spelled is the layout of that scalar", floor=3)
+def r2_14(rep):
+    """`int_kind_rust_type` / `float_kind_rust_type` pick the spelling of `long double`, `__int128`, `wchar_t` .. by the SIZE in the
+    layout they are handed.  Handing them the layout of the enclosing type picks the row of another size: the `TypeKind::Complex`
+    arm passes the complex type's own layout (2 x the element), so `long double _Complex` (32 bytes on x86-64) is spelled
+    `__BindgenComplex<f64>` (16 bytes), and with a 64-bit long double `__BindgenComplex<u128>` (32 bytes for 16).
+    Per call site: under an arm for the scalar kind itself the argument is `self.layout(ctx)`; under the Complex arm it is derived
+    (halved) from it."""
+    prog = rep.prog
+    b = rep.need(prog.impl_fn("codegen::TryToRustTy", "ir::ty::Type", "try_to_rust_ty"), "<Type as TryToRustTy>::try_to_rust_ty")
+    n = 0
+    for c in b.calls(lambda x: x["k"] == "Call" and callee_of(x).endswith(("ast_ty::float_kind_rust_type", "ast_ty::int_kind_rust_type"))):
+        arms = [g for pol, kind, g in b.guards(c, nested=True) if kind == "arm" and pol]
+        vs = set()
+        for g in arms:
+            vs |= {v.split("::")[-1] for v in pat_variants_(g[0]["arms"][g[1]]["pat"]) if "TypeKind::" in v}
+        if not vs:
+            continue
+        n += 1
+        arg = c["args"][2]
+        src = b.canon(arg, 10)
+        if strip(arg).get("k") == "Local" and b.local_init(strip(arg)["id"]) is not None:
+            src = b.canon(b.local_init(strip(arg)["id"]), 10)
+        own = src.replace(" ", "") in ("ir::ty::Type::layout(param:self,param:ctx)",)
+        kind = "/".join(sorted(vs))
+        if vs & {"Complex"}:
+            rep.check(not own, "complex-element-layout@try_to_rust_ty",
+                      "the element is spelled by a layout derived from the complex type's" if not own else
+                      "the element of a `_Complex` is spelled by the layout of the COMPLEX type (twice the element's size): `long double _Complex` "
+                      "becomes `__BindgenComplex<f64>`, 16 bytes for a 32-byte type", b.loc(c))
+        else:
+            rep.check(own, "scalar-own-layout:%s@try_to_rust_ty" % kind, "spelled by `self.layout(ctx)` (found `%s`)" % src[:80], b.loc(c))
+    rep.need(n >= 3, "int_kind_rust_type / float_kind_rust_type call sites in try_to_rust_ty")
